@@ -1,6 +1,6 @@
 ------------------------------ MODULE MonChunk ------------------------------
 (* Partition (Chunk.tla) evaluated by TLC on what the REAL helpers.ChunkSlice / VBucketDiscovery.Get
-   returned: chunk.ndjson, one line per (n,t): {"n","t","runs":[[count,start0,size],...],"get_ok":bool}
+   returned: chunk.ndjson, one line per (n,t): {"n","t","runs":[[count,start0,size],...],"contig","gs":[[member,start,size,contiguous],...],"full"}
    where runs is the run-length form of the member list (consecutive members whose chunks have the same
    size and follow each other without gap are one run). *)
 EXTENDS Integers, Sequences, FiniteSets, TLC, Json
@@ -9,16 +9,25 @@ Trace == ndJsonDeserialize("chunk.ndjson")
 \* a run [count, start, size]: members m..m+count-1 have chunks [start + k*size, start + (k+1)*size)
 RunOK(r) == r[1] >= 1 /\ r[3] >= 1
 RunEnd(r) == r[2] + r[1] * r[3]
-LineOK(e) ==
+Sizes(e) == {e.n \div e.t, (e.n + e.t - 1) \div e.t}
+\* helpers.ChunkSlice: the chunks in member order
+SliceOK(e) ==
   LET rs == e.runs IN
-  /\ Len(rs) >= 1
-  /\ \A k \in DOMAIN rs : RunOK(rs[k])
+  /\ Len(rs) >= 1 /\ e.contig
+  /\ \A k \in DOMAIN rs : RunOK(rs[k]) /\ rs[k][3] \in Sizes(e)
   /\ rs[1][2] = 0
   /\ \A k \in 1..(Len(rs) - 1) : rs[k + 1][2] = RunEnd(rs[k])
   /\ RunEnd(rs[Len(rs)]) = e.n
-  /\ \A k \in DOMAIN rs : rs[1][3] - rs[k][3] \in {0, 1}
   /\ e.members = e.t
-  /\ e.get_ok
+\* VBucketDiscovery.Get: g = <<member, first vBucket, size, contiguous>> for every member that was asked
+GetOK(e) ==
+  LET gs == e.gs IN
+  /\ \A k \in DOMAIN gs : gs[k][3] \in Sizes(e) /\ gs[k][3] >= 1 /\ gs[k][4] = 1 /\ gs[k][2] >= 0 /\ gs[k][2] + gs[k][3] <= e.n
+  /\ \A j, k \in DOMAIN gs : j < k => (gs[j][2] + gs[j][3] <= gs[k][2] \/ gs[k][2] + gs[k][3] <= gs[j][2])        \* disjoint
+  /\ \A j, k \in DOMAIN gs : gs[j][1] < gs[k][1] => gs[j][2] < gs[k][2]                                            \* ascending with the member number
+  /\ (e.full => Len(gs) = e.t /\ gs[1][2] = 0 /\ \A k \in 1..(Len(gs) - 1) : gs[k + 1][2] = gs[k][2] + gs[k][3])     \* exact cover
+  /\ (e.full => gs[Len(gs)][2] + gs[Len(gs)][3] = e.n)
+LineOK(e) == SliceOK(e) /\ GetOK(e)
 Init == i = 1 /\ bad = {}
 Next == /\ i <= Len(Trace) /\ i' = i + 1
         /\ bad' = IF LineOK(Trace[i]) THEN bad ELSE bad \cup {<<Trace[i].n, Trace[i].t>>}
